@@ -100,6 +100,9 @@ def st_mod(base):
     if cfg["optimal_fit_edelta"]:
         mods.append(st.integers(7, 14).filter(lambda v: v != cfg["optimal_fit_num_samples"]).map(
             lambda v: {"kind": "setting", "key": "optimal_fit_num_samples", "value": v}))
+    # with plateau search on, the upper bound is max(range_x): equal bounds (u, u) and (v, v) are different settings
+    mods.append(st.tuples(st.floats(0.25, 0.45), st.floats(0.55, 0.9)).map(
+        lambda t: {"kind": "range_equal", "u": t[0], "v": t[1]}))
     # --- parameter attributes
     mods.append(st.sampled_from(["E", "contact_point", "baseline"]).flatmap(lambda name: st.sampled_from([
         {"kind": "param", "name": name, "attr": "value", "factor": 1.07},
@@ -144,7 +147,7 @@ class _Named(list):
         return list(self)
 
 
-GROUPS = ["tiny", "model_key", "range_type", "segment", "range_bound", "weight_cp", "gcf_k", "method", "method_kws",
+GROUPS = ["tiny", "range_equal", "model_key", "range_type", "segment", "range_bound", "weight_cp", "gcf_k", "method", "method_kws",
           "optimal_fit_edelta", "optimal_fit_num_samples", "param", "param_expr", "data", "preprocessing",
           "pre_option", "representation", "dontcare"]
 
@@ -222,6 +225,9 @@ def build(base, mod=None, fit=False):
         pi[twin["what"].split("_fixed")[0]].set(vary=False)
     if twin.get("kind") == "tiny" and twin["what"] == "weight_cp" and not kw["weight_cp"]:
         kw["weight_cp"] = 5e-7
+    if twin.get("kind") == "range_equal":
+        kw.update(optimal_fit_edelta=True, range_type="absolute", segment=0,
+                  range_x=[twin["u"] * curve["z0"], twin["u"] * curve["z0"]])
     if twin.get("kind") == "param" and twin.get("attr") == "expr_same":
         pi["baseline"].set(vary=False)
     if kind == "setting":
@@ -253,6 +259,9 @@ def build(base, mod=None, fit=False):
             p.set(expr="E*1e-15")
         elif mod["attr"] == "expr_same":
             p.set(expr="%r + 0*E" % float(p.value))
+    elif kind == "range_equal":
+        kw.update(optimal_fit_edelta=True, range_type="absolute", segment=0,
+                  range_x=[mod["v"] * curve["z0"], mod["v"] * curve["z0"]])
     elif kind == "tiny":
         w = mod["what"]
         if w == "weight_cp":
@@ -407,7 +416,7 @@ def check_cross_process(base, ctx):
 
 
 def run(ctx):
-    n = max(1, ctx.scale(2400, 300000) // len(GROUPS))
+    n = max(1, ctx.scale(2400, 60000) // len(GROUPS))
     for group in GROUPS:
         ctx.hypothesis(st_case(group), check_case, n, label="pairs:" + group)
     ctx.hypothesis(st_base(), check_cross_process, max(1, ctx.scale(16, 480)), label="cross-process")
